@@ -19,6 +19,11 @@ NoShape == <<>>
 AnyText == {"tins", "temb", "tpush", "tfmt", "tdel"}
 ShapeFmt4 == << {"tins"}, {"tfmt"}, {"tfmt"}, AnyText >>
 ShapeFmt5 == << {"tins"}, {"tfmt"}, {"tdel", "tfmt"}, {"tfmt", "tins"}, AnyText >>
+(* child-list shapes: two insertions, a removal, then an insertion by index / at an end (the removed child is still *)
+(* an uncollected tombstone when the commit grouping puts the calls into one transaction or gc is off)             *)
+XIns == {"xins", "xpushb", "xpushf"}
+ShapeXml4 == << XIns, XIns, {"xdel"}, XIns >>
+ShapeXml5 == << XIns, XIns, {"xdel"}, XIns, {"xins", "xdel"} >>
 
 VARIABLES D, ops, nid, hist
 vars == <<D, ops, nid, hist>>
